@@ -48,7 +48,8 @@ CONSTANTS MaxN,       \* max series per frame
           LenVals,    \* sample counts
           TRIds,      \* time range ids: 0 = zero, 1 = A, 2 = B (B encloses A)
           AlignVals,  \* alignments: 0 and a, a+1, a+2 with a = 5
-          N4TRIds, N4LenVals, N4AlignVals,   \* restricted value sets for frames of MaxN = 4 series
+          SmallFrom,  \* frames of >= SmallFrom series draw from the restricted value sets:
+          N4TRIds, N4LenVals, N4AlignVals,
           CfgIds,     \* codec configurations to compute expectations for
           Perms       \* raw orders emitted per frame: subset of {"id", "rev", "rot"}
 
@@ -72,7 +73,7 @@ Cfg(c) == CASE c = "k3f" -> [keys |-> <<1, 2, 3>>, var |-> {}, merge |-> TRUE]
    sequence is produced and for 3..4 series both orders of every tie are.                   *)
 Series == [k : KeyVals, l : LenVals, t : TRIds, a : AlignVals]
 Small == [k : KeyVals, l : N4LenVals, t : N4TRIds, a : N4AlignVals]
-Allowed(n) == IF n >= 4 THEN Small ELSE Series
+Allowed(n) == IF n >= SmallFrom THEN Small ELSE Series
 \* rank: length, time range, then alignment and key DEscending, so that the canonical
 \* order is mostly unsorted with respect to (key, alignment)
 Rank(s) == ((s.l * 3 + s.t) * 8 + (7 - s.a)) * 4 + (3 - s.k)
@@ -277,8 +278,7 @@ AllSound == \A c \in CfgIds, f \in Frames :
 Exp(c, f) == LET m == Merged(c, f)
                  g == FlagsOf(c, m)
              IN [f |-> FlagByte(g), m |-> MetaOf(g, m),
-                 d |-> [i \in DOMAIN m |->
-                         [k |-> m[i].k, a |-> m[i].a, ts |-> m[i].ts, te |-> m[i].te, src |-> m[i].src]]]
+                 d |-> [i \in DOMAIN m |-> <<m[i].k, m[i].a, m[i].ts, m[i].te, m[i].src>>]]
 Tuple(f) == [i \in DOMAIN f |-> <<f[i].k, f[i].l, TR(f[i].t)[1], TR(f[i].t)[2], f[i].a>>]
 Out == [p \in Perms |-> LET f == Permute(p, fr) IN
                         [s |-> Tuple(f), e |-> [c \in CfgIds |-> Exp(c, f)]]]
